@@ -2,7 +2,7 @@ pub fn find_next_char_pos(content: &str, bytes: &[u8], byte_pos: usize) -> Optio
     let mut cursor = byte_pos;
 
     loop {
-        if cursor >= bytes.len() || cursor == 0 {
+        if cursor >= bytes.len() {
             break None;
         }
 
